@@ -37,8 +37,10 @@ Cases ==
   \* ("?" = the unregistered id): it must be refused, not decoded with the filters that happen to be known
   \cup {[fam |-> "xfer", kind |-> "wireunregplain", proto |-> pr, pipe |-> p, payload |-> "b1", expect |-> "refused"] :
            pr \in {"raw", "json"}, p \in {"?", "??", "g?", "gm?"}}
-  \cup {[fam |-> "xfer", kind |-> "replypipe", proto |-> pr, pipe |-> Str(p), payload |-> "rand4k", expect |-> "replypipe"] :
-           pr \in {"raw", "json"}, p \in SeqsUpTo(2)}
+  \* a reply travels through the pipe of its call -- also an error reply, whether the handler returned the error (herr)
+  \* or the framework did before any handler ran (unknown method: nf; undecodable argument: baddec)
+  \cup {[fam |-> "xfer", kind |-> "replypipe", proto |-> pr, pipe |-> Str(p), payload |-> "rand4k", outcome |-> oc, expect |-> "replypipe"] :
+           pr \in {"raw", "json"}, p \in SeqsUpTo(2), oc \in {"ok", "herr", "nf", "baddec"}}
 
 VARIABLES c, done
 vars == <<c, done>>
